@@ -266,6 +266,9 @@ def s_ioerr(F, R):
             elif first.get("k") == "Match" and first.get("scrut") is node and \
                     all(_pat_root(a["pat"]) == "Ok" or _propagates(a["body"]) for a in first["arms"]):
                 R.ok("S-ioerr", key, "matched, every arm that can see the Err propagates it")
+            elif first.get("k") == "Let" and first.get("e") is node and len(chain) > 1 and chain[1].get("k") == "If" and \
+                    _pat_root(first["pat"]) == "Err" and _arm_keeps_kind(F, first["pat"], chain[1]["then"]):
+                R.ok("S-ioerr", key, "`if let Err(e) = .. { return Err(IoError(e.kind(), ..)) }`: the arm, evaluated on an abstract io::Error, returns an error of the same kind")
             elif first.get("k") == "Call" and first["fn"].get("name") == "map_err" and len(chain) > 1 and chain[1].get("k") == "Try":
                 nmap += 1
                 R.ok("S-ioerr", key + "/map_err", "map_err then `?` (that the mapping keeps the kind is H-noswallow's evaluated rule)")
@@ -275,7 +278,7 @@ def s_ioerr(F, R):
                 R.ok("S-ioerr", key, "returned")
             else:
                 # tail expression returning the io::Result itself is fine (write_bytes); anything else is a discard
-                if _is_tail_of_fn(par, x, b):
+                if _is_tail_of_fn(par, x, b) and (f["kind"] != "Closure" or _closure_result_used(F, fid)):
                     R.ok("S-ioerr", key, "tail")
                 else:
                     how = first.get("k")
@@ -287,6 +290,90 @@ def s_ioerr(F, R):
     R.floor("S-ioerr", "io::Result call sites", n, 14)
     # the poll decoder's poll_read results are decided by the evaluated transfer functions P-header / P-body (transport error,
     # Pending and zero-length read cases), not by the shape of its match arms
+
+
+def _closure_result_used(F, fid, depth=0):
+    """The closure's result (an io::Result it returns as its tail) reaches a `?`, a `return` or the enclosing function's own
+    tail through the combinator it is handed to (`map_or(Ok(()), f)`, `try_for_each(f)`, `and_then(f)` ..) and the method chain
+    on that combinator's result; a chain that ends in a statement (`opt.map(f);`) drops it."""
+    if "::{closure" not in fid or depth > 3:
+        return True
+    parent = fid.rsplit("::{closure", 1)[0]
+    pf = F.fns.get(parent)
+    if pf is None or not pf.get("thir"):
+        return True               # cannot locate the use site: not this clause's business
+    pb = nbody(F, parent) if pf["kind"] != "Closure" else _closure_body(F, parent)
+    if pb is None:
+        return True
+    node = None
+    for y in walk_all(pb):
+        if y.get("k") == "Closure" and y.get("def") == fid:
+            node = y
+            break
+    if node is None:
+        return True
+    par = _parents(pb)
+    cur = node
+    for a in _ancestors(par, node):
+        k = a.get("k")
+        if k in ("Borrow", "Deref", "Await", "Scope", "Use", "NeverToAny", "PtrCoerce"):
+            cur = a
+            continue
+        if k == "Call":
+            cur = a               # the combinator receiving the closure, then the method chain on its result
+            continue
+        if k in ("Try", "Return"):
+            return True
+        if k == "Match" and a.get("scrut") is cur:
+            return True           # handed to a match: the match clause of this rule / H-noswallow looks at its arms
+        if k == "Expr" and "e" in a and len(a) <= 3:
+            return False          # an expression statement: the value is dropped
+        if k == "Let" or (k is None and "pat" in a):
+            return True           # bound to a pattern / variable: followed no further
+        if k == "Block":
+            if a.get("expr") is cur:
+                if _is_tail_of_fn(par, a, pb) or a is pb:
+                    return pf["kind"] != "Closure" or _closure_result_used(F, parent, depth + 1)
+                cur = a
+                continue
+            return False          # a statement: the value is dropped
+        if k in ("If", "Loop", "While", "For"):
+            cur = a
+            continue
+        return True
+    return True
+
+
+def _arm_keeps_kind(F, pat, body):
+    """The arm, evaluated with the caught io::Error abstract, leaves the function with Err(IoError(that error's kind, ..))
+    (possibly wrapped in ErrorV5::Common) or with the io::Error itself."""
+    from peval import PE, Sym, Adt, Undecided, _Ret
+    how, ids = _err_binders(pat)
+    if how != "bound" or not ids:
+        return False
+
+    def hook(d, res, args, node, env):
+        if d == "std::io::error::Error::kind" and args and args[0] == Sym("ioerr"):
+            return Sym("ioerr.kind")
+        if node["fn"].get("name") in ("to_string", "to_owned") and len(args) == 1:
+            return Sym("text")
+        return None
+    pe = PE(F, call_hook=hook)
+    env = {i: Sym("ioerr") for i in ids}
+    try:
+        pe.ev(body, env)
+        return False              # falls through: the error is dropped and decoding goes on
+    except _Ret as r:
+        v = r.v
+    except Undecided:
+        return False
+    if isinstance(v, Adt) and v.variant == "Err":
+        v = v.fields.get("0")
+    if v == Sym("ioerr"):
+        return True
+    while isinstance(v, Adt) and v.variant == "Common":
+        v = v.fields.get("0")
+    return isinstance(v, Adt) and v.variant == "IoError" and v.fields.get("0") == Sym("ioerr.kind")
 
 
 def _is_tail_of_fn(par, x, b):
@@ -573,7 +660,10 @@ def _result_matches(F, R, dec):
                 if c.get("k") == "Let":
                     et = _err_type(c["e"].get("ty"))
                     if et is not None:
-                        sites.append(("if-let", et, [(c["pat"], x["then"]), ({"k": "Wild"}, x.get("else") or {"k": "Tuple", "items": []})], c["e"]))
+                        arms_ = [(c["pat"], x["then"])]
+                        if _pat_root(c["pat"]) != "Err":
+                            arms_.append(({"k": "Wild"}, x.get("else") or {"k": "Tuple", "items": []}))     # the else branch sees the Err
+                        sites.append(("if-let", et, arms_, c["e"]))
             if x.get("k") == "Block":
                 for st in x.get("stmts", []):
                     if st.get("k") == "Let" and st.get("else") is not None and st.get("init") is not None:
@@ -602,7 +692,7 @@ def _result_matches(F, R, dec):
                             "%s: a %s on a Result<_, %s> has an arm `%s` that can see an I/O error (or end of input) and returns a different error "
                             "without using the one it caught: the front-ends then disagree on where the input ended" % (
                                 root, kind, et, pp_pat(pat)[:60] if pat.get("k") != "Wild" else "_"), where=loc(x))
-    R.floor("H-noswallow", "matches on I/O-carrying results (wrappers and poll included)", seen, 4)
+    R.floor("H-noswallow", "matches on I/O-carrying results (wrappers and poll included)", seen, 1)
 
 
 # ---- H-async1 / H-asref ------------------------------------------------------------------------------------------
